@@ -248,6 +248,7 @@ def run(prog, chk):
     formatted_buffers(prog, chk, "C18.f")
     parser_text_complete(prog, chk, "C18.j")
     hex_digits(prog, chk, "C18.k")
+    base64_table(prog, chk, "C18.l")
     encoder_bytes_are_utf8(prog, chk, "C18.h")
     decoder_is_utf8(prog, chk, "C18.i")
 
@@ -821,3 +822,43 @@ def hex_digits(prog, chk, rid):
         chk.bad(rid, f, "hex-digits-wrong", where,
                 "for the input byte %02X fromHex stores %s at output positions %s; the upper-case hexadecimal text is \"%02X\"" % (
                     b_, "".join(chr(c) if isinstance(c, int) and 32 <= c < 127 else "?" for c in got), posn, b_), evals=n_ev)
+
+
+def base64_table(prog, chk, rid):
+    """the table fromBase64 translates characters with, read from its initialiser"""
+    chk.rule(rid, "TBL: the decoding table of String::fromBase64 maps the k-th character of the RFC 4648 alphabet (A-Z a-z 0-9 + /) to k and "
+                  "every other index it covers to the reject value 255", floor=1)
+    fs = [f for f in prog.functions.values() if f.name == "String::fromBase64" and f.blocks]
+    if not fs:
+        raise AnalysisBroken("String::fromBase64 not found")
+    f = fs[0]
+    tab = None
+    at = None
+    for n in f.nodes:
+        if n["k"] != "DeclStmt":
+            continue
+        for d in n["decls"]:
+            if d.get("init") is None:
+                continue
+            x = f.nodes[f.strip(d["init"])]
+            if x["k"] == "InitListExpr" and len(x["c"]) >= 100:
+                vals = [fin.eval_expr(f, y, {}) for y in x["c"]]
+                if None not in vals:
+                    tab, at = vals, n["i"]
+    if tab is None:
+        g = [g_ for k_, g_ in prog.globals.items() if "base64" in k_.lower() and g_.get("values")]
+        if g:
+            tab = g[0]["values"]
+    if tab is None:
+        raise AnalysisBroken("String::fromBase64: decoding table (a constant array of >= 100 entries) not found")
+    alpha = "ABCDEFGHIJKLMNOPQRSTUVWXYZabcdefghijklmnopqrstuvwxyz0123456789+/"
+    want = {ord(c): k for k, c in enumerate(alpha)}
+    wrong = [(i, tab[i] if i < len(tab) else None, want.get(i, 255)) for i in range(max(len(tab), 123)) if (tab[i] if i < len(tab) else None) != want.get(i, 255)]
+    where = f.where(at) if at is not None else "%s:%s" % (f.file, f.line)
+    if not wrong:
+        chk.ok(rid, f, "decoding table of %d entries is the RFC 4648 alphabet" % len(tab), where, "64 alphabet positions and %d reject entries compared" % (len(tab) - 64), evals=len(tab))
+    else:
+        i, got, w = wrong[0]
+        chk.bad(rid, f, "base64-table-entry:%d" % i, where,
+                "the decoding table maps %r (index %d) to %s; RFC 4648 requires %s - every encoding containing that character decodes to other bytes (or is "
+                "rejected / accepted wrongly)" % (chr(i), i, got, w), evals=len(tab))
